@@ -13,25 +13,54 @@ Proof. intros []; reflexivity. Qed.
 Lemma with_rtcpmux_id : forall c, with_rtcpmux c (rtcpmux c) = c.
 Proof. intros []; reflexivity. Qed.
 
+Lemma cert_equals_spec : forall c n, cert_equals c n = same_cert c n.
+Proof.
+  intros [kt k x] [kt' k' x']. unfold cert_equals, same_cert, comparable. cbn.
+  destruct kt, kt'; cbn; auto; destruct (Z.eqb k k'); cbn; auto.
+Qed.
+
+Lemma same_cert_eq : forall a b, same_cert a b = true -> a = b.
+Proof.
+  intros [kt k x] [kt' k' x'] H. unfold same_cert in H. cbn in H.
+  repeat (apply andb_true_iff in H as [H ?]).
+  assert (kt = kt') by (destruct kt, kt'; cbn in *; congruence || discriminate).
+  f_equal; auto; now apply Z.eqb_eq.
+Qed.
+
+Lemma same_cert_refl : forall a, comparable a = true -> same_cert a a = true.
+Proof.
+  intros [kt k x] H. unfold same_cert. cbn in *. rewrite H, !Z.eqb_refl. now destruct kt.
+Qed.
+
 Lemma certs_equal_spec : forall new cur,
   List.length cur = List.length new ->
-  certs_equal cur new = Ok (forallb (fun p => Z.eqb (fst p) (snd p)) (combine cur new)).
+  certs_equal cur new = Ok (forallb (fun p => same_cert (fst p) (snd p)) (combine cur new)).
 Proof.
+  unfold certs_equal.
   induction new as [|n ns IH]; intros [|c cs] H; cbn in *; try discriminate; auto.
-  destruct (Z.eqb c n); cbn; auto.
+  rewrite cert_equals_spec. destruct (same_cert c n); cbn; auto.
 Qed.
 
-Lemma list_Z_eqb_eq : forall a b, list_Z_eqb a b = true -> a = b.
+Lemma list_cert_same_eq : forall a b, list_cert_same a b = true -> a = b.
 Proof.
-  unfold list_Z_eqb. induction a as [|x xs IH]; intros [|y ys] H; cbn in *; try discriminate; auto.
+  unfold list_cert_same. induction a as [|x xs IH]; intros [|y ys] H; cbn in *; try discriminate; auto.
   apply andb_true_iff in H as [H1 H2]. apply andb_true_iff in H2 as [H2 H3].
-  apply Z.eqb_eq in H2. subst. f_equal. apply IH. now rewrite H1, H3.
+  apply same_cert_eq in H2. subst. f_equal. apply IH. now rewrite H1, H3.
 Qed.
 
-Lemma list_Z_eqb_refl : forall a, list_Z_eqb a a = true.
+Lemma list_cert_same_refl : forall a, forallb comparable a = true -> list_cert_same a a = true.
 Proof.
-  unfold list_Z_eqb. induction a as [|x xs IH]; cbn; auto.
-  apply andb_true_iff in IH as [H1 H2]. now rewrite H1, Z.eqb_refl, H2.
+  unfold list_cert_same. induction a as [|x xs IH]; cbn; auto.
+  intro H. apply andb_true_iff in H as [Hx Hxs].
+  specialize (IH Hxs). apply andb_true_iff in IH as [H1 H2].
+  now rewrite H1, (same_cert_refl x Hx), H2.
+Qed.
+
+(* position by position *)
+Lemma list_cert_same_nth : forall a b i c n,
+  list_cert_same a b = true -> nth_error a i = Some c -> nth_error b i = Some n -> c = n.
+Proof.
+  intros a b i c n H Ha Hb. apply list_cert_same_eq in H. subst. congruence.
 Qed.
 
 (* each block either rejects with InvalidModification, leaving the stored
@@ -48,14 +77,14 @@ Qed.
 Lemma sc_certs_spec : forall c new,
   sc_certs c new = if changes_certs c new then (c, Err E_modification) else (c, Ok tt).
 Proof.
-  intros c new. unfold sc_certs, changes_certs.
+  intros c new. unfold sc_certs, sc_certs_by, changes_certs. fold certs_equal.
   destruct (certs new) as [|n ns] eqn:N; auto.
-  unfold list_Z_eqb. rewrite (Nat.eqb_sym (List.length (n :: ns))).
+  unfold list_cert_same. rewrite (Nat.eqb_sym (List.length (n :: ns))).
   destruct (Nat.eqb (List.length (certs c)) (List.length (n :: ns))) eqn:L; cbn [negb andb]; auto.
   apply Nat.eqb_eq in L. rewrite (certs_equal_spec _ _ L).
-  destruct (forallb (fun p => Z.eqb (fst p) (snd p)) (combine (certs c) (n :: ns))) eqn:F; cbn [negb]; auto.
+  destruct (forallb (fun p => same_cert (fst p) (snd p)) (combine (certs c) (n :: ns))) eqn:F; cbn [negb]; auto.
   assert (E : certs c = n :: ns).
-  { apply list_Z_eqb_eq. unfold list_Z_eqb. rewrite F. apply Nat.eqb_eq in L. now rewrite L. }
+  { apply list_cert_same_eq. unfold list_cert_same. rewrite F. apply Nat.eqb_eq in L. now rewrite L. }
   rewrite <- E. now rewrite with_certs_id.
 Qed.
 
@@ -254,4 +283,47 @@ Lemma servers_atomic_anywhere : forall hl cur new (a : list server) s b,
 Proof.
   intros hl cur new a s b H E V. apply servers_atomic; auto.
   rewrite E. now apply servers_valid_app.
+Qed.
+
+(* ---------- certificates: identity is the x509 certificate with its key ---------- *)
+(* naming, at some position, a certificate that is not the stored one -- another
+   x509 certificate for the same key, the same x509 certificate with another
+   key, anything -- is a change and is rejected *)
+Lemma other_certificate_rejected : forall hl cur new i c n,
+  nth_error (certs cur) i = Some c -> nth_error (certs new) i = Some n -> c <> n ->
+  set_configuration false hl cur new = (cur, Err E_modification).
+Proof.
+  intros hl cur new i c n Hc Hn Hne. apply change_rejected.
+  unfold changes_immutable. assert (C : changes_certs cur new = true).
+  { unfold changes_certs. destruct (certs new) as [|n0 ns] eqn:N.
+    - destruct i; discriminate.
+    - destruct (list_cert_same (certs cur) (n0 :: ns)) eqn:S; auto.
+      exfalso. apply Hne. eapply list_cert_same_nth; eauto. }
+  rewrite C. now rewrite !orb_true_r.
+Qed.
+
+Lemma same_key_other_x509_rejected : forall hl cur new i c n,
+  nth_error (certs cur) i = Some c -> nth_error (certs new) i = Some n ->
+  c_x509 c <> c_x509 n ->
+  set_configuration false hl cur new = (cur, Err E_modification).
+Proof.
+  intros hl cur new i c n Hc Hn Hx. eapply other_certificate_rejected; eauto. congruence.
+Qed.
+
+(* the stored list named again (certificates pion can compare) is no change *)
+Lemma same_certificates_no_change : forall cur new,
+  certs new = certs cur -> forallb comparable (certs cur) = true -> changes_certs cur new = false.
+Proof.
+  intros cur new E H. unfold changes_certs. rewrite E.
+  destruct (certs cur); auto. now rewrite list_cert_same_refl.
+Qed.
+
+Lemma certificate_identity : forall hl cur new i c n,
+  nth_error (certs cur) i = Some c -> nth_error (certs new) i = Some n ->
+  (c <> n -> set_configuration false hl cur new = (cur, Err E_modification)) /\
+  (c_x509 c <> c_x509 n -> set_configuration false hl cur new = (cur, Err E_modification)).
+Proof.
+  intros hl cur new i c n Hc Hn. split.
+  - exact (other_certificate_rejected hl cur new i c n Hc Hn).
+  - exact (same_key_other_x509_rejected hl cur new i c n Hc Hn).
 Qed.
